@@ -282,6 +282,15 @@ impl Proto {
         self.place = Place::PlacedUnmapped;
         self
     }
+    /// read length of an unmapped read (0 together with `no_bases` = `SEQ *`)
+    pub fn ulen(mut self, n: usize) -> Proto {
+        self.ulen = n;
+        self
+    }
+    pub fn no_bases(mut self) -> Proto {
+        self.bases = false;
+        self
+    }
     /// class string used in fingerprints: placement/role
     pub fn class(&self) -> String {
         let p = match self.place {
@@ -341,7 +350,7 @@ pub fn rg_name(i: usize) -> Option<&'static str> {
     }
 }
 
-pub const BASE_STREAMS: &[&str] = &["single", "multi", "pairs", "pairs-special", "supp", "rich"];
+pub const BASE_STREAMS: &[&str] = &["single", "multi", "pairs", "pairs-special", "supp", "rich", "shapes"];
 
 pub fn base_stream(which: usize) -> Vec<Proto> {
     use Role::*;
@@ -392,6 +401,41 @@ pub fn base_stream(which: usize) -> Vec<Proto> {
             u(7, 8),
             u(8, 5).tags(6),
         ],
+        // C19: every record shape that matters for "does it overlap": span != read length in both
+        // directions (clips, insertions, deletions, skips, pads), CIGAR-less placed reads with and
+        // without bases (SAM: they cover [POS, POS]), reads at position 1 and on the last base, two
+        // records that differ in their mate fields only, records of an EARLIER reference at HIGHER
+        // coordinates than everything on the next one, three references + unplaced tail
+        "shapes" => {
+            let pu = |id: usize, rid: usize, pos: usize, len: usize| {
+                let p = m(id, rid, pos, 0).placed_unmapped().ulen(len);
+                if len == 0 { p.no_bases() } else { p }
+            };
+            vec![
+                m(0, 0, 40, 0),
+                m(1, 0, 52, 10),
+                pu(2, 1, 1, 0),
+                m(3, 1, 1, 1),
+                m(4, 1, 2, 9),
+                pu(5, 1, 4, 8),
+                m(6, 1, 5, 4),
+                m(7, 1, 7, 6),
+                pu(8, 1, 10, 0),
+                m(9, 1, 11, 8),
+                m(10, 1, 13, 11),
+                m(11, 1, 15, 12),
+                m(12, 1, 17, 0).pair(0, First),
+                m(13, 1, 17, 0).pair(0, Last).rev(),
+                pu(14, 1, 18, 7),
+                m(15, 1, 24, 1),
+                pu(16, 1, 24, 0),
+                m(17, 2, 1, 0),
+                pu(18, 2, 100, 8),
+                m(19, 2, 193, 0),
+                u(20, 8),
+                u(21, 5),
+            ]
+        }
         _ => unreachable!(),
     }
 }
